@@ -1,7 +1,144 @@
+(* C39 Jacobian-product utilities contract Jacobians correctly.
+   Statements only; every proof is `exact <lemma>` from Num/JacProdProofs.v.
+   Dense data: a measurement m has a kind (m_sc = rank-0 entries), a cotangent m_dy (list of its entries) and
+   Jacobian rows m_rows (one per trainable parameter, each as long as m_dy); enc_dy / enc_jac_t / enc_jac_a build
+   PennyLane's nested tuple structure from it (wf_m k = well-shaped with k parameters). *)
 From Coq Require Import List ZArith Bool.
 From PLV Require Import Num.JacProdModel Num.JacProdProofs.
 Import ListNotations.
 Open Scope Z_scope.
-Theorem stub_dot_nil : forall a, dot a [] = 0.
-Proof. exact dot_nil_r. Qed.
-Print Assumptions stub_dot_nil.
+
+(* result[p] = sum_m sum_i dy[m][i] * J[m][p][i], whichever path (einsum scalar / einsum vector / except-fallback)
+   compute_vjp_multi takes *)
+Theorem vjp_is_contraction : forall k ms, k <> O -> ms <> [] -> Forall (wf_m k) ms ->
+  exists c, compute_vjp_multi (enc_dy ms) (enc_jac_t ms) = Ok (VT (T1 c)) /\ length c = k /\
+            forall p, nth p c 0 = contract_vjp ms p.
+Proof. exact vjp_multi_tuple_contraction. Qed.
+Print Assumptions vjp_is_contraction.
+
+(* one trainable parameter: jac is a tuple of arrays (the `not isinstance(jac[0], tuple)` branch) *)
+Theorem vjp_is_contraction_single_param : forall ms, ms <> [] -> Forall (wf_m 1) ms ->
+  compute_vjp_multi (enc_dy ms) (enc_jac_a ms) = Ok (VT (T1 [contract_vjp ms 0])).
+Proof. exact vjp_multi_array_contraction. Qed.
+Print Assumptions vjp_is_contraction_single_param.
+
+(* compute_vjp_single: tuple of per-parameter arrays (num == 1 and num > 1 paths), and a bare array *)
+Theorem vjp_single_is_contraction : forall sc dy rows,
+  wf_d sc (length dy) -> rows <> [] -> Forall (fun r => length r = length dy) rows ->
+  compute_vjp_single (enc_e sc dy) (VTup (map (enc_e sc) rows)) = Ok (VT (T1 (map (dot dy) rows))).
+Proof. exact vjp_single_tuple_ok. Qed.
+Print Assumptions vjp_single_is_contraction.
+
+Theorem vjp_single_array_is_contraction : forall sc dy row,
+  wf_d sc (length dy) -> length row = length dy ->
+  compute_vjp_single (enc_e sc dy) (enc_e sc row) = Ok (VT (T1 [dot dy row])).
+Proof. exact vjp_single_array_ok. Qed.
+Print Assumptions vjp_single_array_is_contraction.
+
+(* compute_vjp_multi = sum over the measurements of compute_vjp_single *)
+Theorem multi_is_sum_of_singles : forall k ms, k <> O -> ms <> [] -> Forall (wf_m k) ms ->
+  Forall (fun m => compute_vjp_single (enc_e (m_sc m) (m_dy m)) (VTup (map (enc_e (m_sc m)) (m_rows m)))
+                   = Ok (VT (T1 (map (dot (m_dy m)) (m_rows m))))) ms /\
+  compute_vjp_multi (enc_dy ms) (enc_jac_t ms)
+  = match sum_stack (map (fun m => T1 (map (dot (m_dy m)) (m_rows m))) ms) with
+    | Some t => Ok (VT t) | None => Err end.
+Proof. exact vjp_multi_sum_of_singles. Qed.
+Print Assumptions multi_is_sum_of_singles.
+
+(* JVP: result[i] = sum_p J[p][i] * tangent[p]  (scalar measurement, vector measurement, bare array) *)
+Theorem jvp_is_contraction_scalar : forall tg rows, length tg = length rows -> rows <> [] ->
+  compute_jvp_single tg (VTup (map (enc_e true) rows)) = Ok (VT (T0 (dot tg (map (hd 0) rows)))).
+Proof. exact jvp_single_scalar_ok. Qed.
+Print Assumptions jvp_is_contraction_scalar.
+
+Theorem jvp_is_contraction : forall d tg rows, length tg = length rows -> rows <> [] ->
+  Forall (fun r => length r = d) rows ->
+  exists L, compute_jvp_single tg (VTup (map (enc_e false) rows)) = Ok (VT (T1 L)) /\ length L = d /\
+            forall i, nth i L 0 = contract_jvp tg rows i.
+Proof. exact jvp_single_vector_ok. Qed.
+Print Assumptions jvp_is_contraction.
+
+Theorem jvp_single_param_is_scaling : forall c t, is_shape0 t = false ->
+  compute_jvp_single [c] (VT t) = Ok (VT (tscale c t)).
+Proof. exact jvp_single_array_ok. Qed.
+Print Assumptions jvp_single_param_is_scaling.
+
+(* compute_jvp_multi is compute_jvp_single per measurement, in order *)
+Theorem jvp_multi_is_singles : forall tg js,
+  compute_jvp_multi tg (VTup js)
+  = match all_ok (map (compute_jvp_single tg) js) with Some l => Ok (VTup l) | None => Err end.
+Proof. exact jvp_multi_is_map. Qed.
+Print Assumptions jvp_multi_is_singles.
+
+(* vjp(): the all-zero-dy shortcut returns exactly what the contraction of the Jacobian would return *)
+Theorem zero_dy_shortcut_sound : forall t g results ms,
+  tp_k t <> O -> multi t = true -> partitioned t = false -> ms <> [] ->
+  Forall (wf_m (tp_k t)) ms -> Forall (fun m => Forall (eq 0) (m_dy m)) ms ->
+  snd g results = enc_jac_t ms ->
+  snd (vjp_tape t (enc_dy ms) g) results = vjp_proc t (enc_dy ms) g results.
+Proof. exact zero_dy_shortcut_multi. Qed.
+Print Assumptions zero_dy_shortcut_sound.
+
+Theorem zero_dy_shortcut_sound_single_measurement : forall t g results sc dy rows,
+  tp_k t <> O -> multi t = false -> partitioned t = false ->
+  wf_d sc (length dy) -> length rows = tp_k t -> Forall (fun r => length r = length dy) rows ->
+  Forall (eq 0) dy -> snd g results = VTup (map (enc_e sc) rows) ->
+  snd (vjp_tape t (enc_e sc dy) g) results = vjp_proc t (enc_e sc dy) g results.
+Proof. exact zero_dy_shortcut_single. Qed.
+Print Assumptions zero_dy_shortcut_sound_single_measurement.
+(* zero_dy_shortcut for tapes WITH a shot vector (sum over the shot copies) is covered by the correspondence
+   run only, not by a theorem. *)
+
+(* REFUTED clause: jvp()'s zero-tangent shortcut ignores the shot vector: there is a tape with a shot vector and an
+   all-zero tangent for which the shortcut result differs from the contraction path (one entry per shot copy). *)
+Theorem jvp_zero_tangent_shortcut_shots_refuted :
+  exists t tg g results, tp_k t <> O /\ partitioned t = true /\ forallb (Z.eqb 0) tg = true /\
+    snd (jvp_tape t tg g) results <> jvp_proc t tg g results.
+Proof. exact jvp_zero_shortcut_shots_counterexample. Qed.
+Print Assumptions jvp_zero_tangent_shortcut_shots_refuted.
+
+(* batch processing: tape t receives results[offset_t : offset_t + n_t]; `append` keeps one entry per tape in
+   tape order; `extend` concatenates the iterated entries in tape order (None tapes are skipped); any exception
+   (and, for extend, a non-iterable 0-d entry) aborts the whole batch *)
+Theorem batch_slices : forall fs results t n f, nth_error fs t = Some (n, f) ->
+  nth_error (run_all fs results) t = Some (f (firstn n (skipn (offset t fs) results))).
+Proof. exact run_all_slice. Qed.
+Print Assumptions batch_slices.
+
+Theorem batch_reduction_order_append : forall fs results vs, all_ok (run_all fs results) = Some vs ->
+  batch_loop false fs results [] = Ok (VTup vs).
+Proof. exact batch_append_ok. Qed.
+Print Assumptions batch_reduction_order_append.
+
+Theorem batch_reduction_order_extend : forall fs results vs ls, all_ok (run_all fs results) = Some vs ->
+  all_some (map iter_or_skip vs) = Some ls ->
+  batch_loop true fs results [] = Ok (VTup (concat ls)).
+Proof. exact batch_extend_ok. Qed.
+Print Assumptions batch_reduction_order_extend.
+
+Theorem batch_error_propagates : forall ext fs results, all_ok (run_all fs results) = None ->
+  batch_loop ext fs results [] = Err.
+Proof. exact batch_err. Qed.
+Print Assumptions batch_error_propagates.
+
+Theorem batch_extend_scalar_raises : forall fs results vs, all_ok (run_all fs results) = Some vs ->
+  all_some (map iter_or_skip vs) = None -> batch_loop true fs results [] = Err.
+Proof. exact batch_extend_not_iterable. Qed.
+Print Assumptions batch_extend_scalar_raises.
+
+(* non-vacuity: a well-shaped ragged two-measurement, two-parameter instance (docstring example 2 of
+   compute_vjp_multi scaled by 4 resp. 10) and a batch instance *)
+Example wf_instance :
+  let ms := [ {| m_sc := true; m_dy := [4]; m_rows := [[1]; [2]] |};
+              {| m_sc := false; m_dy := [4; 8]; m_rows := [[3; 4]; [5; 6]] |} ] in
+  Forall (wf_m 2) ms /\ compute_vjp_multi (enc_dy ms) (enc_jac_t ms) = Ok (VT (T1 [48; 76])).
+Proof.
+  cbn zeta. split; [|vm_compute; reflexivity].
+  repeat constructor; cbn; try discriminate; auto.
+Qed.
+
+Example batch_instance :
+  let fs := [ (1%nat, fun sl => Ok (VT (T1 sl))); (0%nat, fun _ => Ok VNone); (2%nat, fun sl => Ok (VT (T1 sl))) ] in
+  batch_loop false fs [7; 8; 9] [] = Ok (VTup [VT (T1 [7]); VNone; VT (T1 [8; 9])]) /\
+  batch_loop true fs [7; 8; 9] [] = Ok (VTup [VT (T0 7); VT (T0 8); VT (T0 9)]).
+Proof. split; vm_compute; reflexivity. Qed.
